@@ -67,6 +67,7 @@ def batch_variants(seq, rng):
 
 
 class RQPart(Part):
+    SHRINK_FIELDS_FIRST = True
     def nontrivial(self, case, obs):
         ops = [f.split(",") for f in case.split(";")]
         done = [int(o[1]) for o in ops if o[0] == "2"]
